@@ -134,13 +134,27 @@ def run(ctx):
         ppg.inst = FakeInst(ppg.MAX_MEMORY_LEN)
         return ppg
 
-    def sel_arg(sel):
-        return None if sel == [] else (sel[0] if len(sel) == 1 else list(sel))
-
+    nsel = [0]
     nform = [0]
+
+    def sel_arg(sel):
+        # channel selections as the caller may write them: None, a bare int, a list, a tuple, an integer ndarray
+        if sel == []:
+            return None
+        nsel[0] += 1
+        k = nsel[0] % 4
+        if len(sel) == 1 and k == 0:
+            return sel[0]
+        return [list(sel), np.array(sel), tuple(sel), list(sel)][k]
 
     def do_set(ppg, q, req, scalar, sel):
         vals = [v * UNIT[q] if q not in ("plen", "order") else v for v in req]
+        # a request one unit beyond a limit is also made a hair (3 ppm) beyond it: still out of range, still to be clamped
+        LIM = {"freq": (15, 320), "amp": (3, 20), "offs": (-20, 30), "skew": (-25, 25)}
+        if q in LIM and nform[0] % 2 == 1:
+            lo_, hi_ = LIM[q]
+            vals = [(hi_ * UNIT[q] + abs(hi_ * UNIT[q]) * 3e-6) if v_ == hi_ + 1 else ((lo_ * UNIT[q] - abs(lo_ * UNIT[q]) * 3e-6) if v_ == lo_ - 1 else x_)
+                    for v_, x_ in zip(req, vals)]
         # the caller may pass whole-number requests as integers (Python int, integer ndarray), floats, lists, tuples or arrays
         nform[0] += 1
         whole = all(abs(v - round(v)) < 1e-9 for v in vals) and q in ("amp", "offs", "plen", "order")
@@ -396,6 +410,10 @@ def run(ctx):
         order = rnd.choice([7, 7, 9])
         sps = rnd.choice([2, 4, 8])
         slots = PRBS(order, rnd.choice([2 ** order - 1, 100, 64]), seed=rnd.randrange(1, 100))
+        if k % 5 == 4:       # short words with a single cyclic correlation peak (a 12-slot word, Barker-13, a 16-slot word)
+            from opticomlib.typing import binary_sequence as _bs
+            slots = _bs(["111001011000", "1111100110101", "1110010110000100"][(k // 5) % 3])
+            order = 0
         tx = np.kron(slots.data, np.ones(sps))
         l = tx.size
         d = rnd.choice([0, 0, 1, l - 1, l // 2, rnd.randrange(0, l)])
